@@ -60,7 +60,8 @@ def one_trace(rng, tid, prop):
                 if ok:
                     size = int(numpy.prod(dshape, dtype=int))
                     mask = [rng.random() < 0.5 for _ in range(size)] if rng.random() < 0.5 else []
-                    rec.do("copyto", pair, targets=[pair[0]], keep=False, mask=mask, spelling=rng.choice(["numpoly", "numpy"]))
+                    # what copyto writes is growth (no listed property claims it); that it writes ONLY its target is C17's frame clause
+                    rec.do("copyto", pair, targets=[pair[0]], keep=False, mask=mask, spelling=rng.choice(["numpoly", "numpy"]), prop="GROW")
         elif c < 0.75:
             rec.do("any", [rng.choice(regs)], keep=False, name=rng.choice(ONE))
         else:
